@@ -136,6 +136,41 @@ def correspondence(ctx):
         GC.simple_layout(s, wb)
         s.meta = {"wide-tx": [nin, nout]}
         scns.append(s)
+    # one witness item of more than 2 MiB (a valid block: witness bytes weigh a quarter), and scripts of exactly 1 MiB and 2 MiB: fields
+    # that an incremental reader fills in several steps
+    for coin, field, ln in [("litecoin", "scriptsig", 1 << 20)] + ([("bitcoin", "witness", (2 << 20) + 1000), ("bitcoin", "script", (2 << 20) + 1), ("bitcoin", "witness", (3 << 20) + 17)] if ctx.thorough() else []):
+        hb = GC.gen_chain(r, coin, 3, max_txs=1, max_io=1, segwit=False, auxpow_mix=False)
+        data = bytes(ln)[:0] + GC.rb(r, 4096) * (ln // 4096) + GC.rb(r, ln % 4096)
+        if field == "witness":
+            t = K.Tx([(GC.rb(r, 32), 0, b"", 1)], [(5, GC.spk(r, coin, "p2pkh"))], segwit=(1, 1, [[data, b"\x02" + GC.rb(r, 32)]]))
+        elif field == "scriptsig":
+            t = K.Tx([(GC.rb(r, 32), 0, data, 1)], [(5, GC.spk(r, coin, "p2pkh"))])
+        else:
+            t = K.Tx([(GC.rb(r, 32), 0, b"\x01\x01", 1)], [(5, data), (6, GC.spk(r, coin, "p2sh"))])
+        hb[1].txs.append(t)
+        prev = hb[0].hash()
+        for b in hb[1:]:
+            b.prev = prev
+            b.merkle_root = None
+            prev = b.hash()
+        s = K.Scenario(coin=coin, callback="csvdump")
+        GC.simple_layout(s, hb)
+        s.meta = {"huge-field": "%s %d" % (field, ln)}
+        scns.append(s)
+    # more than 16 MiB of rows in one csv file (thorough): 64 blocks x 2100 inputs
+    if ctx.thorough():
+        hb = GC.gen_chain(r, "bitcoin", 65, max_txs=1, max_io=1, segwit=False, auxpow_mix=False)
+        for j, b in enumerate(hb[1:]):
+            b.txs.append(K.Tx([(GC.rb(r, 32), q, b"\x01\x01", 0xffffffff) for q in range(2100)], [(q + 1, GC.spk(r, "bitcoin", "p2pkh")) for q in range(3)]))
+        prev = hb[0].hash()
+        for b in hb[1:]:
+            b.prev = prev
+            b.merkle_root = None
+            prev = b.hash()
+        s = K.Scenario(coin="bitcoin", callback="csvdump")
+        GC.simple_layout(s, hb, per_file=20)
+        s.meta = {"rows-over-16MiB": True}
+        scns.append(s)
     bb.check(ctx, "csvdump-chains", scns, CMP, nontrivial=lambda s, m: len(m["delivered"]) > 1)
 
 
